@@ -69,6 +69,56 @@ def _idle(o, subs):
     return {"rewards": [model.num(r) for r in o.rewards]}
 
 
+def project_graph_nodes(g) -> list:
+    out = []
+    for n in g.nodes:
+        ty = n.node_type.name.lower()
+        if ty == "operation":
+            ent = n.operation.operation_id + 1
+        elif ty == "machine":
+            ent = n.machine_id + 1
+        elif ty == "job":
+            ent = n.job_id + 1
+        else:
+            ent = 0
+        out.append([n.node_id + 1, ty, ent])
+    return out
+
+
+def _edge_type(attr) -> str:
+    ty = attr.get("type")
+    if ty is None:
+        return "none"
+    name = getattr(ty, "name", str(ty)).lower()
+    return {"conjunctive": "conj", "disjunctive": "disj"}.get(name, name)
+
+
+def project_graph_edges(g, typed=True) -> list:
+    if typed:
+        return sorted([int(u) + 1, int(v) + 1, _edge_type(a)] for u, v, a in g.graph.edges(data=True))
+    return sorted([int(u) + 1, int(v) + 1] for u, v in g.graph.edges())
+
+
+@projector("ResidualGraphUpdater")
+def _residual(o, subs):
+    g = o.job_shop_graph
+
+    def idx(c):
+        for i, x in enumerate(subs):
+            if x is c:
+                return i + 1
+        return 0
+    ico = getattr(o, "_is_completed_observer", None)
+    return {"removed": [i + 1 for i, r in enumerate(g.removed_nodes) if r],
+            "nnodes": len(g.removed_nodes),
+            "edges": project_graph_edges(g, typed=False),
+            "graph_nodes": sorted(int(n) + 1 for n in g.graph.nodes()),
+            "rm_machines": bool(o.remove_completed_machine_nodes),
+            "rm_jobs": bool(o.remove_completed_job_nodes),
+            "dep": idx(ico) if ico is not None else 0,
+            "builder": getattr(o, "_verif_builder", "")}
+
+
 def project_observer(o, subs=()) -> dict:
     name = type(o).__name__
     rec = {"t": name, "name": name.replace("Observer", "")}
